@@ -40,10 +40,15 @@ def edited(t, phase):
     return c
 
 
+#: constructs the enumerated sequences only reach at 7+ tokens: signed / quoted range bounds, prefixes and suffixes around ranges
+CURATED = ["[-10 TO -1]", "f:[-10 TO -1]", "([-3 TO -1])^2", "NOT [-5 TO -2]", "[\"a b\" TO \"c d\"]", "[-\"a b\" TO c]", "{-1 TO \"x\"}",
+           "a AND [-2 TO -1] OR b", "f:(a [-2 TO -1])", "+[-2 TO -1] -[3 TO 4]", ">-1 AND <=-5", "f:>=\"a b\" g", "NOT -a", "+-a b", "NOT (a b)^2 c~"]
+
+
 def check(item):
     fails = []
     seq, tricky = item
-    q = gen.render_tricky(seq, len(seq)) if tricky else gen.render(seq)
+    q = seq if isinstance(seq, str) else (gen.render_tricky(seq, len(seq)) if tricky else gen.render(seq))
     try:
         t0 = parser.parse(q)
     except Exception:  # noqa: BLE001  not accepted (e.g. a non-integer proximity): outside the property's quantifier
@@ -89,13 +94,14 @@ def main():
     p = read_payload()
     seqs = gen.sequences(p["max_tokens"])
     items = [(s, False) for s in seqs] + [(s, True) for i, s in enumerate(seqs) if i % 3 == 0 and any(t in gen.TRICKY for t in s)]
+    items += [(q, False) for q in CURATED]
     res = pmap(check, items)
     failures = [f for r in res for f in r[1]]
     rest, hit = classify(failures, p.get("known", []))
-    emit({"ok": not rest, "evaluations": sum(r[0] for r in res), "distinct_nontrivial": len([s for s in seqs if len(s) > 1]),
+    emit({"ok": not rest, "evaluations": sum(r[0] for r in res), "distinct_nontrivial": len([s for s in seqs if len(s) > 1]) + len(CURATED),
           "rule": "every accepted token-type sequence of <= %d tokens (enumerated by DFS over the live LALR automaton), rendered "
-                  "with distinct words (every third one also with texts that probe token boundaries: escapes, quotes inside phrases, reserved words in other case), parsed, stripped of layout (fully / every other node); non-trivial = more than one token"
-                  % p["max_tokens"],
+                  "with distinct words (every third one also with texts that probe token boundaries: escapes, quotes inside phrases, reserved words in other case), + %d curated queries (signed / quoted range bounds, prefixes and suffixes around ranges); parsed, stripped of layout (fully / every other node); non-trivial = more than one token"
+                  % (p["max_tokens"], len(CURATED)),
           "bound": "token sequences of length <= %d" % p["max_tokens"],
           "samples": [{"tokens": list(seqs[len(seqs) // 2]), "query": gen.render(seqs[len(seqs) // 2])}],
           "failures": rest[:40], "known": hit})
